@@ -275,6 +275,20 @@ def r4_replace_order(prog, rep: Report, pf: PoolFacts):
 
     def inline(func, call, ctx):
         return func.cls is pf.replacer and func.name.startswith("_") and not func.name.startswith("__")
+
+    def _is_received_var(t) -> bool:
+        """a local that is re-bound inside the loop (so the engine names it by its loop-head value) and whose every assignment
+        is a get on a queue: `rid = q.get(); while rid is not None: ...; rid = q.get()`"""
+        if isinstance(t, tuple) and t and t[0] == "elem" and isinstance(t[1], tuple) and t[1][:2] == ("call", "iter") and t[1][2] \
+                and isinstance(t[1][2][0], tuple) and t[1][2][0][0] == "attr" and t[1][2][0][2] == "get":
+            return True                      # for rid in iter(<queue>.get, <stop token>)
+        if not (isinstance(t, tuple) and t and t[0] == "lv"):
+            return False
+        name = t[1]
+        defs = [n for n in ast.walk(run_.node) if isinstance(n, ast.Assign) and any(isinstance(x, ast.Name) and x.id == name for x in n.targets)]
+        others = [n for n in ast.walk(run_.node) if isinstance(n, ast.Name) and n.id == name and isinstance(n.ctx, ast.Store)]
+        return bool(defs) and len(defs) == len(others) and all(isinstance(n.value, ast.Call) and queue_call(n.value)
+                                                               and queue_call(n.value)[0] == "get" for n in defs)
     ps, un = summaries(prog, run_, th, inline=inline)
     if un:
         rep.unrec("C03.R4", run_, "index", "; ".join(un))
@@ -306,7 +320,8 @@ def r4_replace_order(prog, rep: Report, pf: PoolFacts):
                                     and isinstance(x[1], tuple) and x[1][0] == "elem" and x[1][2] == loop_id
                                     and isinstance(x[1][1], tuple) and x[1][1][0] == "attr" and x[1][1][2] == "procs"]
                         other = [x for x in sides if x not in wid_side]
-                        if wid_side and other and holds and any(st_[0] == "eff" and st_[1] == "get" for st_ in subterms(other[0])):
+                        if wid_side and other and holds and (any(st_[0] == "eff" and st_[1] == "get" for st_ in subterms(other[0]))
+                                                             or _is_received_var(other[0])):
                             matched = True
                 if not matched:
                     bad = bad or "the successor is stored at a position of procs at which the worker's wid was not found equal to the received wid"
